@@ -938,6 +938,76 @@ def _as_load(t: ast.AST) -> ast.AST:
     return t2
 
 
+def string_pieces(t: Term) -> list | None:
+    """a string-building term as a sequence of literal pieces and ("repr", X) / ("str", X) holes -- the same sequence
+    for `repr(x) + "\\n"`, `"%r\\n" % (x,)`, `"{!r}\\n".format(x)` and f"{x!r}\\n"; None when the term is not of that kind"""
+    def merge(ps: list) -> list:
+        out: list = []
+        for p in ps:
+            if isinstance(p, str) and out and isinstance(out[-1], str):
+                out[-1] += p
+            elif p != "":
+                out.append(p)
+        return out
+    tag = t[0]
+    if tag == "const" and isinstance(t[1], str):
+        return [t[1]] if t[1] else []
+    if tag == "bin" and t[1] == "Add":
+        a, b = string_pieces(t[2]), string_pieces(t[3])
+        return None if a is None or b is None else merge(a + b)
+    if tag == "pcall" and t[1] in ("repr", "str") and len(t[2]) == 1 and not t[3]:
+        return [(t[1], t[2][0])]
+    if tag == "fstr":
+        ps: list = []
+        for v in t[1:]:
+            if v[0] == "const" and isinstance(v[1], str):
+                ps.append(v[1])
+            elif v[0] == "fmt" and len(v) == 3:
+                ps.append(("repr" if v[2] == 114 else "str", v[1]))
+            else:
+                return None
+        return merge(ps)
+    if tag == "pcall" and isinstance(t[1], tuple) and t[1][0] == "meth" and t[1][2] == "format" and t[1][1][0] == "const" and isinstance(t[1][1][1], str) and not t[3]:
+        import string
+        ps = []
+        auto = 0
+        try:
+            for lit, field, spec, conv in string.Formatter().parse(t[1][1][1]):
+                ps.append(lit)
+                if field is None:
+                    continue
+                if spec or conv not in (None, "r", "s") or not (field == "" or field.isdigit()):
+                    return None
+                idx = int(field) if field else auto
+                auto += 1
+                if idx >= len(t[2]):
+                    return None
+                ps.append(("repr" if conv == "r" else "str", t[2][idx]))
+        except ValueError:
+            return None
+        return merge(ps)
+    if tag == "bin" and t[1] == "Mod" and t[2][0] == "const" and isinstance(t[2][1], str):
+        import re
+        args = list(t[3][1:]) if t[3][0] == "tuple" else [t[3]]
+        ps = []
+        pos = 0
+        k = 0
+        for m in re.finditer(r"%(.)", t[2][1]):
+            ps.append(t[2][1][pos:m.start()])
+            pos = m.end()
+            c = m.group(1)
+            if c == "%":
+                ps.append("%")
+            elif c in "rs" and k < len(args):
+                ps.append(("repr" if c == "r" else "str", args[k]))
+                k += 1
+            else:
+                return None
+        ps.append(t[2][1][pos:])
+        return merge(ps) if k == len(args) else None
+    return None
+
+
 def dict_entries(st: "State", D: Term, upto: "Event | None" = None) -> dict[Any, Term]:
     """constant-keyed entries of the dict value D as built along the path: a display, `dict(k=v, ...)`, or an empty
     container filled by `D[k] = v` stores (those logged before the event `upto`)"""
